@@ -10,7 +10,7 @@ CHECKS = {
          "Same model space x {none, LZ4, ZSTD} x {hash on, off}; forced cells guarantee zero-frame / no-metadata / no-end / 3.0-3.6 / doubled-end / gecko games under every compression; oracle is byte equality plus hash and quirk equality, hash checked against a one-shot XXH3.",
          "Trusts arrow2's codecs and xxhash-rust's one-shot xxh3_64."),
  "C03": ("exploration", "4.C03", "model-based oracle: decoded columns vs big-endian decode at hand-written spec offsets; exhaustive version x leaf presence matrix; one-hot events",
-         "Every leaf of every frame event is compared with the value decoded from the generated payload at the offset of an independent spec table, for all 784 minor versions; presence (Some/None) per version x leaf is enumerated exhaustively; one-hot events make any shift or swap unmistakable.",
+         "Every leaf of every frame event is compared with the value decoded from the generated payload at the offset of an independent spec table, for all 784 minor versions; presence (Some/None) per version x leaf is enumerated exhaustively; one-hot events make any shift or swap unmistakable; one game in four is re-read with frame events wrapped in Message Splitter blocks (refusal tolerated, an accepted game must match the model).",
          "Trusts spec.rs (contiguity/size self-test; fixtures decoded through it agree with peppi)."),
  "C04": ("exploration", "4.C04", "model-based oracle: the generated event history is the reference model for rows, presence bits, values and item grouping",
          "Enumerated presence/rollback shapes x port layouts x framing regimes plus random histories; the history is the reference model: row count, id column, validity bits, per-row values of present characters, item offsets and order, one entry per row in every column and nested bitmap.",
@@ -49,7 +49,7 @@ CHECKS = {
          "Rollback masks for both modes equal the quadratic definition on generated sequences (monotone, repeats, non-adjacent repeats, decreasing, gaps) built directly as a Frame, and on id columns of generated replays.",
          "ids >= -123 and <= -123+2^26."),
  "C16": ("exploration", "4.C16", "round trip through an independent UBJSON encoder, tar walker and order-preserving JSON reader over generated metadata trees",
-         "Generated trees (order, unicode, full int32 range, depth to the 127 limit): read tree equals the model in order, write reproduces the bytes, metadata.json in the .slpp holds the same ordered tree, absent stays absent.",
+         "Generated trees (order, unicode, full int32 range, depth to the 127 limit, sizes to 19 MiB): read tree equals the model in order, write reproduces the bytes, metadata.json in the .slpp holds the same ordered tree, absent stays absent.",
          "Depth > 127, duplicate keys and non-int32 numbers are outside the format."),
  "C17": ("exploration", "4.C17", "fixed-point + self-consistency oracle over generated replays with tolerated irregularities; raw element measured by an independent event walker",
          "w = write(read(x)) declares the raw length the engine's walker measures, re-reads to the same game, and write(read(w)) == w, for x with unknown events, junk after Game End, permuted frame events, missing end/metadata.",
